@@ -226,6 +226,14 @@ func genFileDoc(r *simrt.Rng, now0 int64, forRestart bool) (ydoc, *FileExpect) {
 			st.fields[f] = v
 			eff[f] = v
 		}
+		if r.Intn(4) == 0 {
+			// a field that belongs to another mode is carried along and ignored
+			all := []string{"concurrency", "end-rate", "iteration-frequency", "peak", "rate", "repeat", "stages", "standard-deviation", "start-rate", "volume"}
+			f := all[r.Intn(len(all))]
+			if _, used := eff[f]; !used {
+				st.fields[f] = defVals[f]
+			}
+		}
 		switch mode {
 		case "constant":
 			var nn int
@@ -394,6 +402,10 @@ func genRateString(r *simrt.Rng) (string, bool, int, int64) {
 		d, _ := time.ParseDuration("1" + u)
 		return fmt.Sprintf("%d/%s", n, u), true, n, int64(d)
 	case 6:
+		if r.Intn(3) == 0 { // a zero-padded count is the same count
+			k := simrt.Pick(r, 100, 200, 500)
+			return fmt.Sprintf("%03d/%dms", n, k), true, n, int64(k) * ms
+		}
 		return simrt.Pick(r, "10/", "/", "/s", "1/ ", " 1/s", "1 /s", "", "//", "5/s/s"), false, 0, 0
 	case 7:
 		return simrt.Pick(r, "1/0s", "3/0ms", "1/-1s", "2/-100ms", "1/0", "0/0s"), false, 0, 0
